@@ -640,7 +640,10 @@ VkUsed(st) ==
        \* the harness replaces the shift element of the LARGEST enforced bound
        [] st.vkmut = "shift" /\ S \in {"marlin", "sonic"} ->
             BoundSet(keys) # {} /\ \E l \in labs \cap L : st.comms[l].lbound = MaxOf(BoundSet(keys))
-                                                     /\ polys[l].cls # "zero"   \* it multiplies the value
+                                                     \* Marlin: the shift power multiplies the VALUE (zero for the zero
+                                                     \* polynomial); Sonic: the G2 element is paired with the COMMITMENT
+                                                     \* (the identity only for the unblinded zero polynomial)
+                                                     /\ (polys[l].cls # "zero" \/ (S = "sonic" /\ polys[l].hid # NONE))
        [] OTHER -> TRUE
 
 CheckOp(st, ps, sp0) ==
